@@ -214,3 +214,250 @@ Theorem C14_http_init_empty_path_example :
   = Ok [104;116;116;112;58;47;47;104;58;56;48;47].
 Proof. exact http_init_empty_path_example. Qed.
 Print Assumptions C14_http_init_empty_path_example.
+
+(* ====================================================================== *)
+(* Link C14 <-> C05 (theories/Link/LinkHttpShard.v, LinkHttpShardProofs.v).
+
+   Above, the sharded HTTP reader was related to the source-generic shard
+   algorithm with [locate] and the decoders TAKEN AS GIVEN.  Here they are
+   instantiated by the package reader of C05 (Shard/ShardReader.v):
+     [link_locate sp]    populate_minishard_dict (skip of empty slots, filing
+                         under the minishard number of the FIRST identifier),
+                         ReadableMiniShardCMC's flat index walk and uint64
+                         offset sums, as a C14 [locate];
+     [idx_o idx_decode]  C14's index decoder (None = zlib.error) in the
+                         outcome form C05 takes;
+     [http_shard_fetch]  ShardedScaleBase.fetch_cmc_chunk over HTTP: shard
+                         name from the identifier, HttpShard(...), fetch;
+   and the writer is the sharded writer model of C05 ([session_files]).
+   Files: C14 keeps a tree [fs B], C05 a directory listing name -> bytes;
+   [dir_holds B plain t dir files] says that directory [dir] of the tree [t]
+   holds exactly the files of the listing, as plain files; [tree_of] builds the
+   smallest such tree, so the hypothesis is satisfiable for every listing. *)
+From NGS Require Import Morton ShardBytes MiniShard ShardFile ShardReader ShardCanon ShardFileProofs
+                        ShardTopProofs ShardImplProofs LinkHttpShard LinkHttpShardProofs.
+
+(* returns_stored over HTTP, single .shard files: for every parameter triple
+   (minishard_bits < 59), every set of chunks with distinct identifiers, every
+   store order, encoders with left-inverse decoders, shard files below 2^63
+   bytes (exactly the hypotheses of C05_impl_reads_canonical): the directory
+   written by the sharded writer, placed as plain files into any tree and
+   served as documented for sharded data (static files, Range support
+   [Hslice], no URL rewriting, hence no Content-Encoding), gives back over the
+   sharded HTTP accessor exactly the stored bytes of every stored chunk. *)
+Theorem C14_http_sharded_returns_stored :
+  forall (B : Type) (plain : list N -> B) (gunzip : B -> gzres) (unplain : B -> option (list N))
+         (slice : B -> N -> N -> option B),
+  (forall x, unplain (plain x) = Some x) ->
+  (forall d x a b, unplain d = Some x ->
+     slice d a b = if lenN x <=? a then None
+                   else Some (plain (firstn (N.to_nat (b + 1 - a)) (skipn (N.to_nat a) x)))) ->
+  forall (sp : sparams) (enc ienc : bytes -> bytes) (idx_decode : bytes -> option bytes)
+         (data_o : bytes -> outcome bytes),
+  cbits sp < 2 ^ 64 ->
+  (forall b, idx_decode (ienc b) = Some b) -> (forall b, data_o (enc b) = Ok b) ->
+  (forall b, b <> [] -> ienc b <> []) -> sp_m sp < 59 ->
+  forall ops id b,
+  ops_valid sp ops -> sizes_ok63 sp enc ienc ops -> In (id, b) ops ->
+  forall sc (t : fs B) upath,
+  s_rewrite sc = false -> tree_closed B t -> cleanb (sdir sc upath) = true ->
+  dir_holds B plain t (sdir sc upath) (session_files sp enc ienc ops) ->
+  forall n,
+  fst (hrun B (serve B (plain []) slice sc t) n
+         (http_shard_fetch B plain gunzip unplain sp idx_decode data_o (scale_url sc upath) id))
+  = Ok (plain b).
+Proof. exact http_sharded_returns_stored. Qed.
+Print Assumptions C14_http_sharded_returns_stored.
+
+(* ... and the legacy layout of the same shard file [fl] (the writer never
+   produces it, the readers accept it): its first header_len bytes as
+   <name>.index, the rest as <name>.data, no <name>.shard, in any listing
+   [files'] held by the served tree *)
+Theorem C14_http_sharded_returns_stored_legacy :
+  forall (B : Type) (plain : list N -> B) (gunzip : B -> gzres) (unplain : B -> option (list N))
+         (slice : B -> N -> N -> option B),
+  (forall x, unplain (plain x) = Some x) ->
+  (forall d x a b, unplain d = Some x ->
+     slice d a b = if lenN x <=? a then None
+                   else Some (plain (firstn (N.to_nat (b + 1 - a)) (skipn (N.to_nat a) x)))) ->
+  forall (sp : sparams) (enc ienc : bytes -> bytes) (idx_decode : bytes -> option bytes)
+         (data_o : bytes -> outcome bytes),
+  cbits sp < 2 ^ 64 ->
+  (forall b, idx_decode (ienc b) = Some b) -> (forall b, data_o (enc b) = Ok b) ->
+  (forall b, b <> [] -> ienc b <> []) -> sp_m sp < 59 ->
+  forall ops id b,
+  ops_valid sp ops -> sizes_ok63 sp enc ienc ops -> In (id, b) ops ->
+  forall sc (t : fs B) upath,
+  s_rewrite sc = false -> tree_closed B t -> cleanb (sdir sc upath) = true ->
+  forall (files' : list (bytes * bytes)) (fl : bytes),
+  dir_holds B plain t (sdir sc upath) files' ->
+  blookup (shard_name_of sp id ++ ext_shard) (session_files sp enc ienc ops) = Some fl ->
+  blookup (shard_name_of sp id ++ ext_shard) files' = None ->
+  blookup (shard_name_of sp id ++ ext_index) files' = Some (firstn (N.to_nat (hl sp)) fl) ->
+  blookup (shard_name_of sp id ++ ext_data) files' = Some (skipn (N.to_nat (hl sp)) fl) ->
+  (forall suffix, In suffix [s_shard; s_index; s_data] ->
+     blookup ((shard_name_of sp id ++ suffix) ++ gz_suffix) files' = None) ->
+  forall n,
+  fst (hrun B (serve B (plain []) slice sc t) n
+         (http_shard_fetch B plain gunzip unplain sp idx_decode data_o (scale_url sc upath) id))
+  = Ok (plain b).
+Proof. exact http_sharded_legacy_returns_stored. Qed.
+Print Assumptions C14_http_sharded_returns_stored_legacy.
+
+(* HTTP = local, for ANY served tree and ANY files (damaged or foreign ones
+   included): the sharded HTTP fetch of an identifier equals C05's
+   [scale_fetch] on the files that the scale directory of the tree holds,
+   whenever
+     - a shard source exists (<name>.shard, or <name>.index and <name>.data);
+       otherwise see C14_http_sharded_missing: the two readers then fail
+       differently;
+     - [fetch_inb] = true: every read the package reader issues for the
+       identifier - the shard index (0, header_len), the range of every
+       NON-EMPTY slot (start, end) of the shard index, at start + header_len
+       with length end - start mod 2^64, and the chunk range computed from the
+       minishard index, if the reader gets that far - lies inside the file it
+       addresses with offset < 2^63 and length < 2^63 - 1 (a zero-length read
+       only needs offset < 2^63), start + header_len < 2^64 without wrapping,
+       and the shard-index words are below 2^64 (i.e. the file consists of
+       bytes).  Outside this region the readers really differ: the local
+       reader returns a clamped, short slice or raises ValueError /
+       OverflowError from seek / read, the HTTP reader raises ShardedIOError;
+     - no pre-compressed "<file>.gz" twin is present (sharded data must be
+       served without Content-Encoding);
+     - the data decoder returns bytes, raises an OSError or crashes ([tame]).
+   The guard is an executable boolean function of the files. *)
+Theorem C14_http_sharded_eq_local_reader :
+  forall (B : Type) (plain : list N -> B) (gunzip : B -> gzres) (unplain : B -> option (list N))
+         (slice : B -> N -> N -> option B),
+  (forall x, unplain (plain x) = Some x) ->
+  (forall d x a b, unplain d = Some x ->
+     slice d a b = if lenN x <=? a then None
+                   else Some (plain (firstn (N.to_nat (b + 1 - a)) (skipn (N.to_nat a) x)))) ->
+  forall sc (t : fs B) upath,
+  s_rewrite sc = false -> tree_closed B t -> cleanb (sdir sc upath) = true ->
+  forall (sp : sparams) (idx_decode : bytes -> option bytes) (data_o : bytes -> outcome bytes)
+         (files : list (bytes * bytes)),
+  dir_holds B plain t (sdir sc upath) files ->
+  forall cmc n,
+  (forall b, tame (data_o b)) ->
+  (forall suffix, In suffix [s_shard; s_index; s_data] ->
+     blookup ((shard_name_of sp cmc ++ suffix) ++ gz_suffix) files = None) ->
+  dir_of (sp_s sp) files (shard_key_model (sp_p sp) (sp_m sp) (sp_s sp) cmc) <> SrcNone ->
+  fetch_inb sp idx_decode (dir_of (sp_s sp) files (shard_key_model (sp_p sp) (sp_m sp) (sp_s sp) cmc)) cmc = true ->
+  fst (hrun B (serve B (plain []) slice sc t) n
+         (http_shard_fetch B plain gunzip unplain sp idx_decode data_o (scale_url sc upath) cmc))
+  = omap B plain (scale_fetch sp (idx_o idx_decode) data_o (dir_of (sp_s sp) files) cmc).
+Proof. exact http_sharded_eq_local_reader. Qed.
+Print Assumptions C14_http_sharded_eq_local_reader.
+
+(* the same for any tree and any shard name, without a listing *)
+Theorem C14_http_sharded_eq_local_reader_tree :
+  forall (B : Type) (plain : list N -> B) (gunzip : B -> gzres) (unplain : B -> option (list N))
+         (slice : B -> N -> N -> option B),
+  (forall x, unplain (plain x) = Some x) ->
+  (forall d x a b, unplain d = Some x ->
+     slice d a b = if lenN x <=? a then None
+                   else Some (plain (firstn (N.to_nat (b + 1 - a)) (skipn (N.to_nat a) x)))) ->
+  forall sc (t : fs B) upath,
+  s_rewrite sc = false -> tree_closed B t -> cleanb (sdir sc upath) = true ->
+  forall (sp : sparams) (idx_decode : bytes -> option bytes) (data_o : bytes -> outcome bytes) name,
+  no_slash name /\ name <> [] ->
+  (forall suffix, In suffix [s_shard; s_index; s_data] ->
+     file_at B t (with_gz (shard_file (sdir sc upath) name suffix)) = None) ->
+  (forall suffix d, In suffix [s_shard; s_index; s_data] ->
+     lookup B t (shard_file (sdir sc upath) name suffix) = Some (File d) -> exists x, unplain d = Some x) ->
+  forall cmc n,
+  (forall b, tame (data_o b)) ->
+  tree_src B unplain t (sdir sc upath) name <> SrcNone ->
+  fetch_inb sp idx_decode (tree_src B unplain t (sdir sc upath) name) cmc = true ->
+  fst (hrun B (serve B (plain []) slice sc t) n
+         (http_shard_fetch_named B plain gunzip unplain sp idx_decode data_o (scale_url sc upath) name cmc))
+  = omap B plain (shard_fetch sp (idx_o idx_decode) data_o (tree_src B unplain t (sdir sc upath) name) cmc).
+Proof. exact http_eq_reader_tree. Qed.
+Print Assumptions C14_http_sharded_eq_local_reader_tree.
+
+(* no shard source at all: ShardedIOError over HTTP, AssertionError locally *)
+Theorem C14_http_sharded_missing :
+  forall (B : Type) (plain : list N -> B) (gunzip : B -> gzres) (unplain : B -> option (list N))
+         (slice : B -> N -> N -> option B),
+  (forall x, unplain (plain x) = Some x) ->
+  (forall d x a b, unplain d = Some x ->
+     slice d a b = if lenN x <=? a then None
+                   else Some (plain (firstn (N.to_nat (b + 1 - a)) (skipn (N.to_nat a) x)))) ->
+  forall sc (t : fs B) upath,
+  s_rewrite sc = false -> tree_closed B t -> cleanb (sdir sc upath) = true ->
+  forall (sp : sparams) (idx_decode : bytes -> option bytes) (data_o : bytes -> outcome bytes)
+         (files : list (bytes * bytes)),
+  dir_holds B plain t (sdir sc upath) files ->
+  forall cmc n,
+  (forall suffix, In suffix [s_shard; s_index; s_data] ->
+     blookup ((shard_name_of sp cmc ++ suffix) ++ gz_suffix) files = None) ->
+  dir_of (sp_s sp) files (shard_key_model (sp_p sp) (sp_m sp) (sp_s sp) cmc) = SrcNone ->
+  fst (hrun B (serve B (plain []) slice sc t) n
+         (http_shard_fetch B plain gunzip unplain sp idx_decode data_o (scale_url sc upath) cmc))
+  = IOErr /\
+  scale_fetch sp (idx_o idx_decode) data_o (dir_of (sp_s sp) files) cmc = Crash AssertionError.
+Proof. exact http_sharded_missing. Qed.
+Print Assumptions C14_http_sharded_missing.
+
+(* the instantiation itself, source-generic: C14's shard algorithm with
+   [locate := link_locate sp], run over ANY byte source (ex, rd) that routes
+   to a reading mode and answers the reads that the package reader issues on
+   [s] the way [s] does ([agree_on]: the shard index, the non-empty slots, the
+   chunk range), computes C05's [shard_fetch_raw] on [s], then the data
+   decoder with C14's error normalisation *)
+Theorem C14_algo_is_package_reader :
+  forall (sp : sparams) (idx_decode : bytes -> option bytes) (data_o : bytes -> outcome bytes) (s : src)
+         (rd : bool -> N -> N -> outcome (list N)) (lg : bool) (ex : list N -> outcome bool)
+         (missing : outcome (list N)) (cmc : N),
+  s <> SrcNone -> routes lg ex -> agree_on sp idx_decode s rd lg cmc ->
+  shard_fetch_pure idx_decode (link_locate sp) data_o ex rd missing (hl sp) cmc
+  = bind (shard_fetch_raw sp (idx_o idx_decode) s cmc) (fun raw => dec_norm (data_o raw)).
+Proof. exact algo_is_reader. Qed.
+Print Assumptions C14_algo_is_package_reader.
+
+(* every listing can be served: the tree made of the ancestors of the scale
+   directory and the listed files is closed and holds the listing *)
+Theorem C14_listing_tree_exists : forall (B : Type) (plain : list N -> B) dir files,
+  tree_closed B (tree_of B plain dir files) /\ dir_holds B plain (tree_of B plain dir files) dir files.
+Proof. exact listing_tree_exists. Qed.
+Print Assumptions C14_listing_tree_exists.
+
+(* non-vacuity, evaluated in the kernel: the four-chunk dataset of
+   C05_reader_hypotheses_inhabited (2 minishard bits, 2 shard bits; one empty
+   chunk; minishards 0 and 2 of shard 2), written by the writer model, served
+   from /k at origin "h": all hypotheses above hold, every stored chunk comes
+   back over HTTP, also from the legacy split of the shard file (64-byte
+   .index, 127-byte .data); the guard of eq_local_reader holds for stored and
+   non-stored identifiers in both layouts and the two readers agree (gap: empty
+   bytes; unknown minishard: AssertionError); a shard that was never written
+   is an I/O error over HTTP and an AssertionError locally. *)
+Example C14_http_sharded_hypotheses_inhabited :
+  cbits ex_sp < 2 ^ 64 /\ sp_m ex_sp < 59 /\ ops_valid ex_sp ex_ops /\ sizes_ok63 ex_sp ex_raw ex_raw ex_ops /\
+  (forall b, ex_dec (ex_raw b) = Some b) /\ (forall b, ex_data (ex_raw b) = Ok b) /\
+  (forall b : bytes, b <> [] -> ex_raw b <> []) /\
+  s_rewrite w_site = false /\ tree_closed blob ex_tree /\ cleanb (sdir w_site ex_upath) = true /\
+  dir_holds blob BPlain ex_tree (sdir w_site ex_upath) ex_files /\
+  map (ex_fetch ex_tree) [10; 8; 26; 40]
+    = [Ok (BPlain [9; 9; 9]); Ok (BPlain [2; 2; 2]); Ok (BPlain []); Ok (BPlain [7])] /\
+  (exists fl, blookup (shard_name_of ex_sp 10 ++ ext_shard) ex_files = Some fl /\
+     blookup (shard_name_of ex_sp 10 ++ ext_shard) ex_legacy_files = None /\
+     blookup (shard_name_of ex_sp 10 ++ ext_index) ex_legacy_files = Some (firstn (N.to_nat (hl ex_sp)) fl) /\
+     blookup (shard_name_of ex_sp 10 ++ ext_data) ex_legacy_files = Some (skipn (N.to_nat (hl ex_sp)) fl) /\
+     lenN (firstn (N.to_nat (hl ex_sp)) fl) = 64 /\ lenN (skipn (N.to_nat (hl ex_sp)) fl) = 127) /\
+  tree_closed blob ex_legacy_tree /\
+  dir_holds blob BPlain ex_legacy_tree (sdir w_site ex_upath) ex_legacy_files /\
+  map (ex_fetch ex_legacy_tree) [10; 8; 26; 40]
+    = [Ok (BPlain [9; 9; 9]); Ok (BPlain [2; 2; 2]); Ok (BPlain []); Ok (BPlain [7])] /\
+  forallb (fun id => fetch_inb ex_sp ex_dec (dir_of 2 ex_files 2) id) [10; 8; 26; 40; 24; 9] = true /\
+  forallb (fun id => fetch_inb ex_sp ex_dec (dir_of 2 ex_legacy_files 2) id) [10; 8; 26; 40; 24; 9] = true /\
+  ex_fetch ex_tree 24 = Ok (BPlain []) /\
+  scale_fetch ex_sp (idx_o ex_dec) ex_data (dir_of 2 ex_files) 24 = Ok [] /\
+  ex_fetch ex_tree 9 = Crash AssertionError /\
+  scale_fetch ex_sp (idx_o ex_dec) ex_data (dir_of 2 ex_files) 9 = Crash AssertionError /\
+  ex_fetch ex_legacy_tree 24 = Ok (BPlain []) /\
+  dir_of 2 ex_files (shard_key_model 0 2 2 1) = SrcNone /\
+  ex_fetch ex_tree 1 = IOErr /\
+  scale_fetch ex_sp (idx_o ex_dec) ex_data (dir_of 2 ex_files) 1 = Crash AssertionError.
+Proof. exact http_sharded_example. Qed.
+Print Assumptions C14_http_sharded_hypotheses_inhabited.
